@@ -104,6 +104,55 @@ Theorem C10_rti_inverse : forall e s v p s1 s2,
     (psr_privileged (s_psr s) = false -> rget (s_regs s3) 6 = rget (s_regs s) 6) /\
     (psr_privileged (s_psr s) = true -> s_saved_sp s3 = s_saved_sp s) /\
     (forall k, 0 <= k -> k <> 6 -> rget (s_regs s3) k = rget (s_regs s2) k) /\
-    s_mem s3 = s_mem s2 /\ s_instrs s3 = s_instrs s2 /\ s_devs s3 = s_devs s2 /\ s_flags s3 = s_flags s2.
+    s_mem s3 = s_mem s2 /\ s_instrs s3 = s_instrs s2 /\ s_devs s3 = s_devs s2 /\ s_flags s3 = s_flags s2 /\
+    regs8 (s_regs s3) /\ s_mcr s3 = s_mcr s2 /\ s_ireg s3 = s_ireg s2 /\
+    rget (s_regs s3) 6 = (if psr_privileged (s_psr s) then w_add (w_sub (entry_sp s) (new_init 2)) (new_init 2) else rget (s_regs s) 6) /\
+    s_saved_sp s3 = (if psr_privileged (s_psr s) then s_saved_sp s else w_add (w_sub (entry_sp s) (new_init 2)) (new_init 2)).
 Proof. exact rti_restores. Qed.
 Print Assumptions C10_rti_inverse.
+
+(* Transparency, what is proved.
+   [peq s s']: s' shows the interrupted program exactly what s did — PC, PSR (CC, privilege, priority),
+   all eight registers (so also its stack pointer), the saved SP, every word of user memory,
+   keyboard queue and display buffer, MCR, flags, internal-register map.
+   [HandlerOK s s1 s2] is the explicit contract of a well-behaved handler between the state s1
+   right after the entry and the state s2 in which it executes RTI: back at its entry stack pointer
+   with the two saved words intact, saved SP untouched, still privileged, every register restored,
+   user memory / keyboard / display / MCR / flags / mappings untouched.
+   C10_serviced_once: entry ; handler meeting HandlerOK ; RTI  gives a state program-equal to the
+   interrupted one.  C10_transparent_partial: by induction over the schedule, any number of
+   interrupts serviced one after the other at an instruction boundary (each taken by the gate, each
+   handler meeting HandlerOK — a handler's own run may contain nested serviced interrupts, the
+   contract is about its end state) leaves the machine program-equal to the interrupted state, so
+   the instruction that finally executes is the one the uninterrupted run executes, from the same
+   visible state.
+   PARTIAL — what is missing for the full statement over whole runs: the congruence of an ordinary
+   instruction step with respect to [peq] (two program-equal states that differ in dead
+   supervisor-stack slots, handler-private supervisor memory, instructions_run, the observer and
+   the consumed part of scripted devices step to program-equal states, provided the instruction
+   does not read those supervisor words), and with it the induction across the boundaries of a
+   whole program.  The harness checks exactly that on the implementation (interrupted vs
+   uninterrupted runs, exhaustive placement). *)
+Theorem C10_serviced_once : forall e s v p s1 s2,
+  entry_pre s v p -> entry_post s s1 v p -> HandlerOK s s1 s2 ->
+  (exists d, entry_sp s = new_init d /\ 2 <= d <= 12288) ->
+  exists s3, exec e SRTI s2 = (s3, inl tt) /\ peq s s3 /\ s_instrs s3 = s_instrs s2.
+Proof. exact serviced_once. Qed.
+Print Assumptions C10_serviced_once.
+
+Theorem C10_transparent_partial : forall e s s', Serviced e s s' -> peq s s'.
+Proof. exact serviced_transparent. Qed.
+Print Assumptions C10_transparent_partial.
+
+(* the hypotheses are satisfiable: a fresh machine (user mode, priority 0, saved SP x3000) with a
+   scripted device requesting vector x80 at priority 4 takes the interrupt *)
+Example C10_entry_pre_satisfiable :
+  let s := new_sim_devs (mkFlags false false false false) 0 true default_ireg [DNull; DNull; DNull; DScript [Some (IVec 128 4)]] in
+  takes_irq (mkEnv false false []) s 128 4 /\ entry_pre s 128 4 /\
+  (exists d, entry_sp s = new_init d /\ 2 <= d <= 12288).
+Proof.
+  cbv zeta. split; [|split].
+  - split; [vm_compute; reflexivity|vm_compute; reflexivity].
+  - constructor; try (vm_compute; reflexivity); try lia; vm_compute; split; congruence.
+  - exists 12288. split; [vm_compute; reflexivity|lia].
+Qed.
